@@ -18,14 +18,15 @@ import lib
 import c06gen as G
 from lib import gz, gtext, glist, gbool, gopt
 
-THEOREMS = ['C06_emitted_valid', 'C06_int_verdicts_agree', 'C06_str_verdicts_agree', 'C06_bool_verdicts_agree',
+THEOREMS = ['C06_emitted_valid_partial', 'C06_decimal_literal', 'C06_decimal_literal_valid', 'C06_decimal_wire_refuted',
+            'C06_nil_required_refuted', 'C06_int_verdicts_agree', 'C06_str_verdicts_agree', 'C06_bool_verdicts_agree',
             'C06_closure_check_sound', 'C06_ex_emitted_valid', 'C06_ex_int_agree', 'C06_ex_str_agree']
 FUEL = 12
 XSD_NS = 'http://www.w3.org/2001/XMLSchema'
 XSI_NS = 'http://www.w3.org/2001/XMLSchema-instance'
 D = decimal.Decimal
 
-IMPORTS = 'From SpyneV Require Import Base.Prelude Base.Ext C06.Check C06.Closure.\n'
+IMPORTS = 'From SpyneV Require Import Base.Prelude Base.Ext C06.Check C06.Closure C06.Main.\n'
 
 
 # ------------------------------------------------------------------ driving the implementation
@@ -482,7 +483,7 @@ def corr_universe(check, ui, tier):
             vt = R.value(['ref', cid], v, W.classes[cid])
             emit_cases.append(('(%d%%nat, %s, %s, %s)' % (n + 2 * cid, gtext('m%d' % cid), vt, U0.g_xml(tree)),
                                'universe %d class %d value %s' % (ui, cid, json.dumps(v)[:400])))
-            conf_cases.append(('(%d%%nat, %s, %s)' % (n + 2 * cid, vt, gbool(not nil_required(desc, ['ref', cid], v))),
+            conf_cases.append(('(%d%%nat, %s, %s)' % (n + 2 * cid, vt, gbool(not nil_required(desc, ['ref', cid], v) and not dec_exponent(v))),
                                'universe %d class %d conformance of %s' % (ui, cid, json.dumps(v)[:400])))
             check.count(('emit', json.dumps(desc, sort_keys=True), cid, json.dumps(v)))
             docs.append((cid, tree, 'emitted'))
@@ -513,7 +514,7 @@ def corr_universe(check, ui, tier):
                    [('tt', 'universe %d: wf_univ / resolves_b on %s' % (ui, json.dumps(desc)[:1200]))],
                    show='(fun _ : unit => (wf_univ UU, resolves_b (schema_of UU %s) UU, resolves_b SS UU))' % tns)
     lib.correspond(check, 'hyp_value', imports, 'nat * value * bool',
-                   '(fun c => let \'(mc, v, b) := c in Bool.eqb (vconf UU (opq_ok (olex_of OT) (ord_of RT)) %d (DRef mc) (NObj mc [v])) b)' % FUEL,
+                   '(fun c => let \'(mc, v, b) := c in Bool.eqb (vconf UU (wire_ok (olex_of OT) (ord_of RT)) %d (DRef mc) (NObj mc [v])) b)' % FUEL,
                    conf_cases)
     lib.correspond(check, 'xsd', imports, 'xnode * bool',
                    '(fun c => Bool.eqb (valid_doc (pat_of PT) (olex_of OT) %d SS (fst c)) (snd c))' % FUEL, xsd_cases)
@@ -551,6 +552,18 @@ def nil_required(desc, ty, v, as_nil=False):
     return False
 
 
+def dec_exponent(v):
+    """does the value hold a Decimal that str() writes with an exponent (region of the known
+    finding C06|decimal|exponent-notation)?"""
+    if v[0] == 'dec':
+        return 'E' in str(D(v[1]))
+    if v[0] == 'list':
+        return any(dec_exponent(x) for x in v[1])
+    if v[0] == 'obj':
+        return any(dec_exponent(x) for x in v[2])
+    return False
+
+
 def compile_shape(msg):
     m = re.search(r"Element '\{[^}]*\}(\w+)'.*?atomic type '([\w:]+)'", msg)
     if m:
@@ -583,6 +596,7 @@ def oracle_emitted(check, W, ui, cid, v, tag=''):
     desc, proto = W.desc, W.proto
     rp = {'kind': 'emitted', 'proto': proto, 'universe': desc, 'cid': cid, 'value': v}
     region = nil_required(desc, ['ref', cid], v)
+    dexp = dec_exponent(v)
     try:
         req = W.request(cid, v)
     except Exception as e:
@@ -595,6 +609,8 @@ def oracle_emitted(check, W, ui, cid, v, tag=''):
     if not ok:
         if region and nil_missing_attr(msg):
             key = 'C06|nil|required-attribute|emitted'
+        elif dexp and msg and "'xs:decimal'" in msg:
+            key = 'C06|decimal|exponent-notation|emitted'
         else:
             key = 'C06|emitted-invalid|request|' + (tag or norm_msg(msg))
         check.fail(key, 'the request Spyne writes for a conformant value is rejected by the schema it publishes (%s): %s -> %s'
@@ -602,7 +618,8 @@ def oracle_emitted(check, W, ui, cid, v, tag=''):
     lv = verdict(W.app_l, req)
     sv = verdict(W.app_s, req)
     if accepted(lv) != accepted(sv) and not region:
-        check.fail('C06|verdict|emitted|lxml=%s,soft=%s|%s' % (lv[0], sv[0], tag or leaf_shape(desc, cid, v)),
+        check.fail('C06|decimal|exponent-notation|verdict' if dexp and not accepted(lv) else
+                   'C06|verdict|emitted|lxml=%s,soft=%s|%s' % (lv[0], sv[0], tag or leaf_shape(desc, cid, v)),
                    'schema validation and soft validation disagree on a document Spyne wrote itself (%s): %s -> lxml %r, soft %r'
                    % (proto, req.decode('utf8', 'replace')[:300], lv, sv), dict(rp, which='verdict'))
     # the response for the same value
@@ -619,6 +636,8 @@ def oracle_emitted(check, W, ui, cid, v, tag=''):
     if not ok:
         if region and nil_missing_attr(msg):
             key = 'C06|nil|required-attribute|emitted'
+        elif dexp and msg and "'xs:decimal'" in msg:
+            key = 'C06|decimal|exponent-notation|emitted'
         else:
             key = 'C06|emitted-invalid|response|' + (tag or norm_msg(msg))
         check.fail(key, 'the response Spyne writes for a conformant value is rejected by the schema it publishes (%s): %s -> %s'
@@ -732,7 +751,7 @@ def oracle_corpus(check, tier):
                 if tag == 'choice-group-in-two-runs':
                     oracle_emitted_tagged(check, W, cid, v, 'C06|choice|group-in-two-runs|emitted')
                 else:
-                    oracle_emitted(check, W, 0, cid, v, tag if tag != 'nil-required-attribute' else '')
+                    oracle_emitted(check, W, 0, cid, v, tag if tag not in ('nil-required-attribute', 'decimal-exponent-value') else '')
             if tag == 'empty-string':
                 from lxml import etree
                 x = etree.Element('{urn:tns}x')
